@@ -228,3 +228,28 @@ def ks_exporter_secret(alg, suite_id, mode, shared_secret, info, psk, psk_id, nh
 def nonce(base_nonce, seq):
     """ComputeNonce: seq_bytes = I2OSP(seq, Nn); return xor(base_nonce, seq_bytes)        (Nn = 12)"""
     return bytes_xor(base_nonce, i2osp(seq, 12))
+
+
+# ====================================================================== history lemmas (C15 / C11): client programs
+# Restricted-Python clients of a context object.  PYVC verifies them against the CONTRACTS of seal()/unseal() (not their
+# bodies); each is one step of the induction over an arbitrary history of messages offered to a context (the message is an
+# arbitrary byte string: genuine, modified, replayed, truncated, out of order ...).
+
+def receiver_step(ctx, accepted, ciphertext, aad):
+    """one message offered to a receiving context; `accepted` counts the messages opened so far"""
+    try:
+        ctx.unseal(ciphertext, aad)
+        accepted = accepted + 1
+    except ValueError:
+        pass
+    return accepted
+
+
+def sender_step(ctx, sent, plaintext, aad):
+    """one seal() on a sending context; `sent` counts the messages sealed so far.  Returns (sent', message or None)"""
+    try:
+        msg = ctx.seal(plaintext, aad)
+        sent = sent + 1
+    except ValueError:
+        msg = None
+    return sent, msg
